@@ -211,7 +211,7 @@ Theorem hp_spec_s sch ser1 rem u : usv_list rem -> scheme_type_of sch = STSpecia
         hp (hss_host false (ntnl rem)) = Ok host /\ host_parsing shp false (hss_host false (ntnl rem)) = Some sh
         /\ hss_host false (ntnl rem) <> []
         /\ (forall p, port = Some p -> p <= 65535)
-        /\ ntnl rem' = sp_path_text_of (ntnl rem) /\ usv_list rem'
+        /\ ntnl rem' = sp_path_text_of (ntnl rem) /\ usv_list rem' /\ starts_aes (sp_path_text_of (ntnl rem)) = true
         /\ su = sauth_tail_s (set_port (set_host u (Some sh)) port) (sp_path_text_of (ntnl rem))
         /\ ends_with_byte 47 ((ser1 ++ hd host) ++ port_suffix port) = false
         /\ (forall P : Prop, (U32_MAX_P < nlen (ser1 ++ hd host) -> P) ->
@@ -275,7 +275,7 @@ Proof.
         -- exists host, sh, None, rem4.
            split; [reflexivity|]. split; [reflexivity|]. split; [exact HhNe|].
            split; [intros p Hp; discriminate Hp|].
-           split; [exact Hrem4|]. split; [exact Hu4|].
+           split; [exact Hrem4|]. split; [exact Hu4|]. split; [first [exact Esae | reflexivity]|].
            split; [rewrite set_port_none; [reflexivity | exact Hpo]|].
            split; [cbn [port_suffix]; rewrite app_nil_r; unfold ends_with_byte in *; rewrite rev_app_distr;
                    destruct (rev (hd host)) as [|x y] eqn:Er; [exfalso; apply Hne2; rewrite <- (rev_involutive (hd host)), Er; reflexivity | exact Hsl]|].
@@ -285,7 +285,7 @@ Proof.
            exists host, sh, (if port_is_default sch v then None else Some v), rem4.
            split; [reflexivity|]. split; [reflexivity|]. split; [exact HhNe|].
            split; [intros p Hp; destruct (port_is_default sch v); [discriminate Hp | inversion Hp; subst; lia]|].
-           split; [exact Hrem4|]. split; [exact Hu4|].
+           split; [exact Hrem4|]. split; [exact Hu4|]. split; [first [exact Esae | reflexivity]|].
            split; [cbn [su_scheme set_host]; rewrite Hus; reflexivity|].
            split.
            { destruct (port_is_default sch v); cbn [port_suffix].
@@ -312,6 +312,9 @@ Proof.
     exists host, sh, None, rem2.
     split; [reflexivity|]. split; [reflexivity|]. split; [exact HhNe|]. split; [intros p Hp; discriminate Hp|].
     split; [exact Hrem2|]. split; [exact Hu2|].
+    split.
+    { destruct (hss_rest false HR) as [|c0 X0]; [reflexivity|]. cbn [port_split] in Eps. cbn [starts_aes].
+      destruct (c0 =? 58) eqn:E58'; [discriminate Eps|]. destruct Hhead as [K|K]; [exact K | rewrite K in E58'; discriminate]. }
     split; [rewrite set_port_none; [reflexivity | exact Hpo]|].
     split; [cbn [port_suffix]; rewrite app_nil_r; unfold ends_with_byte in *; rewrite rev_app_distr;
             destruct (rev (hd host)) as [|x y] eqn:Er; [exfalso; apply Hne2; rewrite <- (rev_involutive (hd host)), Er; reflexivity | exact Hsl]|].
